@@ -381,6 +381,19 @@ def run_null(case, out):
                                     % (cid, len(REC.since(mark)), domain.describe(got))})
             if ffuncs.produce.memento(cid) is not None:
                 out["viol"].append({"sig": "null storage reports something as memoized", "msg": "memento(%r)" % cid})
+        # ... also within one invocation: a body that makes the same nested call twice (and twice more in one batch) has it
+        # computed every time - nothing computed earlier in the same call tree is "memoized"
+        for cid in "az":
+            mark = REC.mark()
+            got = ffuncs.twice(cid)
+            ran = [ev[0] for ev in REC.since(mark)]
+            out["obs"]["null_storage_calls"] += 1
+            out["obs"]["null_storage_repeated_nested_calls"] += 1
+            want = ffuncs.TABLE[cid]
+            if ran.count("produce") < 3 or not domain.eq(got, [want, want, [want, want]]):
+                out["viol"].append({"sig": "null storage served or lost a call",
+                                    "msg": "twice(%r): the nested call made four times (two of them as duplicates of one batch) ran its "
+                                           "body %d times (at least 3 expected), value %s" % (cid, ran.count("produce"), domain.describe(got))})
         # null runner: no body runs, memoized or not
         st = env.fs_backend(sc.path("nr"))
         env.set_env(sc.path("e2"), default_storage=st)
